@@ -634,5 +634,9 @@ pub fn run(cfg: &Cfg, prop: &str) {
             }
         }
     }
+    if prop == "C06" {
+        // how an expiry text becomes an instant: chrono's reader and the layout reader against Model/Time.lean
+        crate::timegen::run_time_cases(&mut sink, &mut r, if cfg.thorough { 20000 } else { 1500 });
+    }
     sink.finish(&cfg.out, serde_json::json!({}));
 }
